@@ -5,7 +5,7 @@ from clustergen import *
 ID = "C04"
 DRIVER = "cluster"
 MODEL_FILES = ["Model/Base.v", "Model/Parse.v", "Model/Node.v", "Model/Pending.v", "Model/Oplog.v", "Model/Cluster.v"]
-THEOREMS = ["C04_replicate_roundtrip", "C04_replicate_remove_roundtrip", "C04_replicate_increment_roundtrip", "C04_create_db_roundtrip", "C04_rp_roundtrip", "C04_set_value_rel", "C04_remove_value_rel", "C04_inc_value_rel", "C04_replay_converges", "C04_replay_same_content", "C04_handle_set_effect", "C04_handle_replicate_set_effect", "C04_handle_remove_effect", "C04_handle_replicate_remove_effect", "C04_handle_increment_effect", "C04_handle_replicate_increment_effect", "C04_live_set_converges", "C04_live_remove_converges", "C04_live_increment_converges", "C04_leader_repl_one", "C04_replay_order_matters", "C04_converges", "C04_convergence_invariant", "C04_converges_reads", "C04_primary_write_queues", "C04_replicated_line_applies", "C04_formed_example", "C04_formed_run_converges", "C04_opp_ids_differ"]
+THEOREMS = ["C04_replicate_roundtrip", "C04_replicate_remove_roundtrip", "C04_replicate_increment_roundtrip", "C04_create_db_roundtrip", "C04_rp_roundtrip", "C04_set_value_rel", "C04_remove_value_rel", "C04_inc_value_rel", "C04_replay_converges", "C04_replay_same_content", "C04_handle_set_effect", "C04_handle_replicate_set_effect", "C04_handle_remove_effect", "C04_handle_replicate_remove_effect", "C04_handle_increment_effect", "C04_handle_replicate_increment_effect", "C04_live_set_converges", "C04_live_remove_converges", "C04_live_increment_converges", "C04_leader_repl_one", "C04_replay_order_matters", "C04_converges", "C04_convergence_invariant", "C04_converges_reads", "C04_primary_write_queues", "C04_replicated_line_applies", "C04_formed_example", "C04_formed_run_converges", "C04_opp_ids_differ", "C04_snapshot_line_roundtrip", "C04_snapshot_primary_registers", "C04_snapshot_secondary_registers", "C04_snapshot_replicas_agree", "C04_snapshot_named_not_selected", "C04_snapshot_missing_db_refused", "C04_snapshot_needs_sel_ok", "C04_snapshot_bar_name_diverges", "C04_snapshot_replicas_example"]
 STRENGTH = {t: "proof-unbounded" for t in THEOREMS}
 RULE = ("clusters of 2-3 real Databases (replication thread and supervisor futures polled by hand, links emulated by explicit "
         "deliver/reply steps); operation sequences of length 1-8 over {set, set-safe, remove, increment, create-db, create-user, "
@@ -52,6 +52,9 @@ def gen_cases(tier, seed):
             for s in ["snapshot false e0", "snapshot true e0|d1", "snapshot false d1", "snapshot false nodb"]:
                 ops = list(base) + [CC("n1", 0, "create-db e0 t"), ["settle"], CC(node, 0, s), ["settle"]]
                 cases.append(("s%d" % cid, hdr, ops)); cid += 1
+            # a database whose name contains the separator of the snapshot list
+            ops = list(base) + [CC("n1", 0, "create-db a|b t"), ["settle"], CC(node, 0, "use-db a|b t"), CC(node, 0, "snapshot false"), ["settle"]]
+            cases.append(("s%d" % cid, hdr, ops)); cid += 1
         dist["single_op"] = cid
     for i in range(n // 4):
         names, hdr, base = setup(2)
@@ -122,7 +125,12 @@ def oracle(case, io, mo):
                 if nd["dead"]:
                     fails.append(("service-thread-died", "step %d: node %s" % (i, name)))
                 if not flushed and not sec_snap and nd.get("snap") != p.get("snap"):
-                    fails.append(("snapshot-requests-differ", "step %d: at quiescence %s is to snapshot %s, the primary %s" % (i, name, nd.get("snap"), p.get("snap"))))
+                    missing = [x for x in p.get("snap") if x not in nd.get("snap")]
+                    if missing and all("|" in x.rsplit(":", 1)[0] for x in missing) and not [x for x in nd.get("snap") if x not in p.get("snap")]:
+                        # the list of names travels joined by '|': a database whose own name contains it is read as several names (known finding)
+                        fails.append(("snapshot-name-with-separator", "step %d: %s was not asked to snapshot %s, the primary was" % (i, name, missing)))
+                    else:
+                        fails.append(("snapshot-requests-differ", "step %d: at quiescence %s is to snapshot %s, the primary %s" % (i, name, nd.get("snap"), p.get("snap"))))
                 if nd["pending"] != 0:
                     fails.append(("pending-not-drained", "step %d: node %s still reports %d pending operations at quiescence" % (i, name, nd["pending"])))
                 if name == prim[0]:
